@@ -245,6 +245,12 @@ class Kern:
         if k == "block":
             self.block(st["body"])
         elif k == "decl":
+            if st.get("static"):
+                # function statics are initialised once and keep their value between calls of the same evaluator
+                done = self.__dict__.setdefault("_statics_done", set())
+                if st["name"] in done:
+                    return
+                done.add(st["name"])
             self.types[st["name"]] = st["type"]
             if st["init"] is not None:
                 self.env[st["name"]] = conv(st["type"], self.ev(st["init"]))
